@@ -136,6 +136,7 @@ Proof.
     assert (zlen (plain (arg_text FIXED o)) = zlen (plain t)) as Hz.
     { unfold r_arg in Hl. rewrite !zlen_rchars_abs in Hl. lia. }
     pair_to_sim (sim_copy_styles t (arg_text FIXED o) H (arg_consistent o Ha) Hz).
+  - apply sim_highlighter; auto.
 Qed.
 
 Lemma step_sim o t : proved_op o = true -> Consistent t -> op_ok o (abs t) = true ->
